@@ -820,7 +820,22 @@ func replayC12(input json.RawMessage) *oracleResult {
 type c11Input struct {
 	Loc      string `json:"location"`
 	Spelling string `json:"spelling"`
-	Cwd      string `json:"cwd,omitempty"` // make this the working directory first: a relative spelling is taken against the CURRENT one
+	Cwd      string `json:"cwd,omitempty"`  // make this the working directory first: a relative spelling is taken against the CURRENT one
+	Disk     string `json:"disk,omitempty"` // create this folder first, with store/v1/root.json in it, a link specs -> store/v1 and a link link.json -> store/v1/root.json
+}
+
+// c11Disk puts real files and symbolic links under dir: what a location normalises to is a matter of its text (and of the working
+// directory for a relative one), not of what the file system holds there.
+func c11Disk(dir string) bool {
+	if os.MkdirAll(path.Join(dir, "store", "v1"), 0o755) != nil {
+		return false
+	}
+	if os.WriteFile(path.Join(dir, "store", "v1", "root.json"), []byte(`{"swagger":"2.0"}`), 0o644) != nil {
+		return false
+	}
+	os.Remove(path.Join(dir, "specs"))
+	os.Remove(path.Join(dir, "link.json"))
+	return os.Symlink(path.Join("store", "v1"), path.Join(dir, "specs")) == nil && os.Symlink(path.Join("store", "v1", "root.json"), path.Join(dir, "link.json")) == nil
 }
 
 func checkC11(in c11Input) (msg, shape string, obs, exp interface{}) {
@@ -829,6 +844,9 @@ func checkC11(in c11Input) (msg, shape string, obs, exp interface{}) {
 			msg, shape = fmt.Sprintf("normalizeBase panics: %v", r), "panic"
 		}
 	}()
+	if in.Disk != "" && !c11Disk(in.Disk) {
+		return
+	}
 	if in.Cwd != "" {
 		old, _ := os.Getwd()
 		if os.MkdirAll(in.Cwd, 0o755) != nil || os.Chdir(in.Cwd) != nil {
@@ -896,6 +914,18 @@ func oracleC11(r *rng, n int, tier string) *oracleResult {
 		for _, rel := range []string{"root.json", "a/root.json", "./a/../root.json", "../root.json"} {
 			try(c11Input{Loc: "file://" + path.Join(dir, rel), Spelling: rel, Cwd: dir})
 		}
+	}
+	// locations that exist on disk, reached through symbolic links (a linked folder, a linked file)
+	{
+		dir := path.Join(os.TempDir(), "verif-c11-"+strconv.Itoa(os.Getpid()), "disk")
+		for _, name := range []string{"specs/root.json", "link.json", "store/v1/root.json"} {
+			loc := "file://" + path.Join(dir, name)
+			for _, sp := range []string{path.Join(dir, name), dir + "/./" + name, dir + "/x/../" + name, dir + "//" + name, path.Join(dir, name) + "#/definitions/x",
+				"file:" + path.Join(dir, name), "file://" + dir + "/./" + name} {
+				try(c11Input{Loc: loc, Spelling: sp, Disk: dir})
+			}
+		}
+		// (not: a relative spelling below a linked WORKING directory - the operating system names that directory by its physical path)
 	}
 	os.RemoveAll(path.Join(os.TempDir(), "verif-c11-"+strconv.Itoa(os.Getpid())))
 	res.Samples = []interface{}{c11Input{Loc: "file:///r/a/root.json", Spelling: "FILE:/r/./a/x/../root.json#/definitions/x"}}
